@@ -1,6 +1,6 @@
-(* C39 -- lemmas and tactics shared by the case files EvalRestoreCase*.v.
+(* C39 -- lemmas, postconditions and tactics shared by the case files EvalRestoreCase*.v.
    Nothing here depends on the shape of the generated body. *)
-From HyV Require Export State.EvalRestore State.EvalRestoreSymex.
+From HyV Require Export State.EvalRestore.
 
 Lemma dget_dset_hy v kvs : dget (VStr "hy") (dset (VStr "hy") v kvs) = Some v.
 Proof.
@@ -14,15 +14,13 @@ Proof.
   destruct (val_eqb (VStr "hy") k) eqn:E; [exact IH | cbn [dget]; rewrite E; exact IH].
 Qed.
 
-(* ---- what is proved of one call *)
-
 (* the event logged for the call of hy_eval *)
 Definition eval_event (m vg vL vmod vmac : val) : event :=
   ("hy_eval", [], [("hytree", m); ("globals", vg); ("locals", vL); ("module", vmod); ("extra_macros", vmac)]).
 
 (* the oracle's answer to the logged call ev, made when rest had been logged *)
-Definition answered (Orc : oracle) (ev : event) (rest : list event) (r : ores) : Prop :=
-  exists hh h2, Orc (log_len rest) (fst (fst ev)) (snd (fst ev)) (snd ev) hh = BDone h2 r.
+Definition answered (O : pure_oracle) (ev : event) (rest : list event) (r : ores) : Prop :=
+  exists hh, snd (O (log_len rest) (fst (fst ev)) (snd (fst ev)) (snd ev) hh) = r.
 
 (* the namespace in which evaluation must happen, when one is given *)
 Definition eval_locals (vg vl vL : val) : Prop :=
@@ -35,12 +33,12 @@ Definition eval_locals (vg vl vL : val) : Prop :=
 (* Value part: a normal result is exactly what hy_eval answered, hy_eval having been called last,
    with the given globals and with locals = the given locals, else the given globals; an exception
    is exactly the one the most recent opaque callee raised (none is invented or swallowed). *)
-Definition post_value (Orc : oracle) (m vg vl vmac : val) (r : eres) : Prop :=
+Definition post_value (O : pure_oracle) (m vg vl vmac : val) (r : eres) : Prop :=
   match r with
   | EOk v (_, ev :: rest) =>
-      (exists vL vmod, ev = eval_event m vg vL vmod vmac /\ eval_locals vg vl vL) /\ answered Orc ev rest (ORet v)
+      (exists vL vmod, ev = eval_event m vg vL vmod vmac /\ eval_locals vg vl vL) /\ answered O ev rest (ORet v)
   | EExc x (_, ev :: rest) =>
-      answered Orc ev rest (ORaise x) /\
+      answered O ev rest (ORaise x) /\
       (fst (fst ev) = "hy_eval" -> exists vL vmod, ev = eval_event m vg vL vmod vmac /\ eval_locals vg vl vL)
   | _ => False
   end.
@@ -51,8 +49,8 @@ Definition post_restore (h : heap) (r : eres) : Prop :=
   | _ => False
   end.
 
-Definition post_both (Orc : oracle) (m vg vl vmac : val) (h : heap) (r : eres) : Prop :=
-  post_value Orc m vg vl vmac r /\ post_restore h r.
+Definition post_both (O : pure_oracle) (m vg vl vmac : val) (h : heap) (r : eres) : Prop :=
+  post_value O m vg vl vmac r /\ post_restore h r.
 
 (* ---- symbolic execution under frame_ok *)
 
@@ -67,12 +65,15 @@ Ltac sx_carry Fr h h' :=
       end
   end.
 
-Ltac sx_oracle F :=
-  fun O n g a kw h =>
-    let h' := fresh "h'" in let r := fresh "r" in let E := fresh "E" in let Fr := fresh "Fr" in
-    destruct (F n g a kw h) as (h' & r & E & Fr); rewrite E; sx_carry Fr h h'; destruct r.
+Ltac sx_oracle F := fun O n g a kw h =>
+  let Fr := fresh "Fr" in let p := fresh "p" in let E := fresh "E" in let h' := fresh "h'" in let r := fresh "r" in
+  pose proof (F n g a kw h) as Fr;
+  remember (O n g a kw h) as p eqn:E in *;
+  destruct p as [h' r]; cbn [fst snd] in *;
+  sx_carry Fr h h'.
 
-Ltac sx_go F := repeat (sx_step ltac:(sx_oracle F) ltac:(fun hd => fail); sx_red).
+Ltac sx_eval := px_cbv tt; cbv delta [hy_eval_user_def hy_eval_def]; px_cbv tt.
+Ltac sx_go F := repeat px_step sx_eval ltac:(sx_oracle F) ltac:(fun hd => fail).
 
 (* ---- leaf goals *)
 
@@ -112,7 +113,8 @@ Ltac leaf_value :=
   | |- exists _, _ => eexists
   | |- _ -> _ => let H := fresh "H" in intro H; try discriminate H
   end;
-  first [ eassumption | reflexivity | exact I ].
+  first [ reflexivity | exact I
+        | match goal with E : (_, ?r) = ?O ?n ?g ?a ?kw ?h |- snd (?O ?n ?g ?a ?kw _) = ?r => rewrite <- E; reflexivity end ].
 
 Ltac leaf :=
   first [ exfalso; cbn [dget] in *; congruence
